@@ -882,6 +882,43 @@ theorem readFramesVia_accept (A : Aead K (Aad H) C) (k : K) (hh : H) (probe : Pr
           rw [ih (i + 1) tail ps' hr, hps]
           rfl
 
+/-- every frame of a stream accepted through a contract-abiding reader went through the AEAD: each one opened
+under the reader's key (nothing is skipped, nothing follows the final frame) -/
+theorem readFramesVia_all_open (A : Aead K (Aad H) C) (k : K) (hh : H) (probe : Probe) (hv : probe.Valid) :
+    ∀ (fs : List (Frame C)) (i : Nat) (tail : Tail) (ps : List Bytes),
+      readFramesVia A k hh probe i fs tail = .ok ps → ∀ f ∈ fs, ∃ a p, A.openIt k a f.ct = some p := by
+  intro fs
+  induction fs with
+  | nil =>
+    intro i tail ps h
+    cases tail <;> simp [readFramesVia] at h
+  | cons f rest ih =>
+    intro i tail ps h g hg
+    rw [readFramesVia_cons] at h
+    split at h
+    · cases h
+    · split at h
+      · cases h
+      · rename_i p hopen
+        rcases List.mem_cons.mp hg with e | e
+        · subst e; exact ⟨_, _, hopen⟩
+        · split at h
+          · split at h
+            · cases h
+            · split at h
+              · rename_i hclean
+                have hc := requireEOF_clean hclean
+                by_cases hb : rest = [] ∧ tail = Tail.clean
+                · rw [hb.1] at e; cases e
+                · exfalso
+                  have : decide (rest = [] ∧ tail = Tail.clean) = false := by simp [hb]
+                  rw [this] at hc
+                  exact hv hc
+              · cases h
+              · cases h
+          · obtain ⟨ps', hr, _⟩ := consChunk_ok h
+            exact ih (i + 1) tail ps' hr g e
+
 end Frames
 
 /-! ## Load -/
